@@ -1,7 +1,8 @@
 (* C14 — a failed cuckoo insert is signalled and, if non-destructive, changes nothing.
    Statements only. *)
 From GX.Model Require Import Base Murmur Cuckoo.
-From GX.Proofs Require Import ListLemmas CuckooProofs.
+From GX.Proofs Require Import ListLemmas CuckooProofs CuckooInv.
+From Coq Require Import Permutation.
 
 (* exhausting the retries is always signalled (the model's InsFull is the documented panic),
    never reported as success *)
@@ -18,5 +19,47 @@ Theorem C14_failed_insert_keeps_length : forall h64 f x destr coin draws,
   end.
 Proof. exact insert_len. Qed.
 
+(* non-destructive: whenever the insert fails with "filter is full" the WHOLE state - every slot,
+   every bucket counter, Length, the parameters - is exactly what it was; for every configuration,
+   state (reachable or not), element, hash and random choices *)
+Theorem C14_nondestructive_changes_nothing : forall h64 f x coin draws f',
+  ck_insert h64 f x false coin draws = InsFull f' -> f' = f.
+Proof. exact insert_full_nondestructive. Qed.
+
+(* destructive: the multiset of slot contents after the failure, plus ONE fingerprint that left
+   the table, equals the multiset before plus the new fingerprint - so at most one previously
+   stored entry is displaced (exactly one, or none when the lost one is the new fingerprint) and
+   nothing is duplicated; an insert that returns normally filled one empty slot with the new
+   fingerprint and only moved the others *)
+Theorem C14_destructive_displaces_at_most_one : forall h64 f x coin draws fp i1 i2,
+  ck_positions h64 f x = Ok (fp, i1, i2) ->
+  match ck_insert h64 f x true coin draws with
+  | InsOk f' => Permutation ([] :: all_slots f') (fp :: all_slots f)
+  | InsFull f' => exists lost, Permutation (lost :: all_slots f') (fp :: all_slots f)
+  | InsPanic _ _ => True
+  end.
+Proof. exact insert_conserves. Qed.
+
+(* ... and Length stays equal to the number of stored entries after every failed insert *)
+Theorem C14_failed_insert_keeps_invariant : forall h64 f x destr coin draws,
+  ck_inv f -> fp_ok h64 (q_fpl f) x = true ->
+  match ck_insert h64 f x destr coin draws with
+  | InsOk f' => ck_inv f' /\ stored f' = S (stored f)
+  | InsFull f' | InsPanic _ f' => ck_inv f' /\ stored f' = stored f
+  end.
+Proof. exact insert_failed_keeps_inv. Qed.
+
+(* non-vacuity: on the murmur3 model a full 2x1 filter fails both ways *)
+Example C14_failure_reachable :
+  let f := match ck_insert murmur64 (ck_new 2 1 2 3) [97] false true [] with InsOk g => g | _ => ck_new 2 1 2 3 end in
+  let f2 := match ck_insert murmur64 f [98] false true [] with InsOk g => g | _ => f end in
+  q_len f2 = 2%N /\
+  (exists g, ck_insert murmur64 f2 [99] false true [0; 0; 0] = InsFull g) /\
+  (exists g, ck_insert murmur64 f2 [99] true true [0; 0; 0] = InsFull g).
+Proof. vm_compute. split; [reflexivity|]. split; eexists; reflexivity. Qed.
+
 Print Assumptions C14_exhausted_is_signalled.
 Print Assumptions C14_failed_insert_keeps_length.
+Print Assumptions C14_nondestructive_changes_nothing.
+Print Assumptions C14_destructive_displaces_at_most_one.
+Print Assumptions C14_failed_insert_keeps_invariant.
